@@ -15,5 +15,8 @@ ok, log = lib.ensure_modelrun()
 if not ok: print(log[-3000:]); sys.exit("modelrun build failed")
 ok, log = lib.ensure_harness()
 if not ok: print(log[-3000:]); sys.exit("harness build failed")
+from checks import resplib
+err = resplib.build(want_c03=True)      # resprun, c03run, harness_resp (C02, C03)
+if err: print(err); sys.exit("resp runners/harness build failed")
 print("setup ok")
 PY
